@@ -40,10 +40,16 @@ func classify(v interface{}) string {
 	if _, ok := v.(runtime.Error); ok {
 		return "fault"
 	}
-	if e, ok := v.(error); ok {
-		return "value:" + e.Error()
+	switch x := v.(type) {
+	case error:
+		return "value:error:" + x.Error()
+	case string:
+		return "value:string:" + x
+	case int:
+		return fmt.Sprintf("value:int:%d", x)
 	}
-	return "value:" + fmt.Sprint(v)
+	// values of script-declared types have no common Go type on both sides: rendering only
+	return "value:other:" + fmt.Sprint(v)
 }
 
 // RunNative executes the compiled twin.
@@ -66,6 +72,15 @@ func RunNative(c Case) (o Obs) {
 // Options for the interpreted side.
 type Options struct {
 	Use []interp.Exports // extra symbol tables (e.g. stdlib.Symbols)
+	// After, when set, is evaluated on the same interpreter after the program, whatever its ending
+	// (the interpreter must remain usable); "after <value>\n" is appended to the interpreter output and
+	// AfterExpect to the native one.
+	After       string
+	AfterExpect string
+	// Entry, when set, is evaluated after the source (interactive style: the source only declares,
+	// e.g. func Main(); Entry = "Main()"). Needed whenever After is used: any later Eval in package
+	// main re-runs a function called main.
+	Entry string
 }
 
 // RunInterp evaluates src in a fresh interpreter.
@@ -90,6 +105,9 @@ func RunInterp(src string, opt Options) (o Obs) {
 		panic(err)
 	}
 	_, err := i.Eval(src)
+	if err == nil && opt.Entry != "" {
+		_, err = i.Eval(opt.Entry)
+	}
 	o.End = "return"
 	if err != nil {
 		o.Err = firstLine(err.Error())
@@ -102,6 +120,14 @@ func RunInterp(src string, opt Options) (o Obs) {
 			}
 		} else {
 			o.End = "reject"
+		}
+	}
+	if opt.After != "" && o.End != "reject" {
+		v, err := i.Eval(opt.After)
+		if err != nil {
+			fmt.Fprintln(&buf, "after: error:", firstLine(err.Error()))
+		} else {
+			fmt.Fprintln(&buf, "after", v.Interface())
 		}
 	}
 	return
